@@ -472,6 +472,7 @@ def run_check(P, tier, seed, replay=None):
     work = WORK / pid
     shutil.rmtree(work, ignore_errors=True)
     work.mkdir(parents=True, exist_ok=True)
+    shutil.rmtree(VERIF / 'replays' / pid, ignore_errors=True)
     violations = []       # (kind, label, text, replay-data)
     known_hits = {}
     notes = []
@@ -603,8 +604,8 @@ def run_check(P, tier, seed, replay=None):
             failing.append((cid, c, ir, mr, reason, lab))
         else:
             nofail.append((cid, c, ir, mr))
-    # the spec oracle also runs over the agreeing cases when the proof is broken
-    if not pr['ok'] and getattr(P, 'HARNESS', None) is not None:
+    # the spec oracle also runs over the agreeing cases (a defect mirrored by the model is still a defect)
+    if getattr(P, 'HARNESS', None) is not None and getattr(P, 'ORACLE_ALWAYS', True):
         for i, c in enumerate(cases):
             cid = f'c{i}'
             if any(cid == d[0] for d in disagreements):
